@@ -115,7 +115,7 @@ func (n *Node) UnmarshalJSON(data []byte) error {
 			return err
 		}
 		n.V = m
-	case "n", "z", "v":
+	case "n", "z", "v", "I":
 		var i int
 		if err := json.Unmarshal(raw.V, &i); err != nil {
 			return err
@@ -327,6 +327,46 @@ func (t *Table) FromText(s string) (Node, error) {
 		return Node{}, err
 	}
 	return t.FromRaw(r), nil
+}
+
+// ParseStrict parses text that must be exactly one JSON value (like json.Unmarshal).
+func (t *Table) ParseStrict(s string) (Node, bool) {
+	if strings.TrimSpace(s) == "" {
+		return Void(), true
+	}
+	if !json.Valid([]byte(s)) {
+		return Node{}, false
+	}
+	n, err := t.FromText(s)
+	if err != nil {
+		return Node{}, false
+	}
+	return n, true
+}
+
+// Line is one lexed line of a native jd diff text: header character and the
+// JSON value of the rest (void when blank, invalid when it is not JSON).
+type Line struct {
+	H string `json:"h"`
+	P Node   `json:"p"`
+}
+
+var InvalidNode = Node{K: "I", V: 0}
+
+// Lex splits a diff text into lines (blank lines are skipped, as the reader does).
+func (t *Table) Lex(text string) []Line {
+	out := []Line{}
+	for _, ln := range strings.Split(text, "\n") {
+		if len(ln) == 0 {
+			continue
+		}
+		p, ok := t.ParseStrict(ln[1:])
+		if !ok {
+			p = InvalidNode
+		}
+		out = append(out, Line{H: ln[:1], P: p})
+	}
+	return out
 }
 
 // Opts is the option record of the specification.
